@@ -4,6 +4,7 @@ import (
 	"context"
 	"errors"
 	"fmt"
+	"strings"
 	"sync"
 	"time"
 
@@ -334,6 +335,27 @@ func queueScenario(c *ctxT, r *gen.R) {
 			break
 		}
 		time.Sleep(100 * time.Microsecond)
+	}
+	// an accepted message that no callback got although a receiver was there to take it is lost
+	if alive > 0 {
+		lg.mu.Lock()
+		metIDs := map[string]bool{}
+		var accIDs []string
+		for _, e := range lg.evs {
+			f := strings.Fields(strings.Trim(string(e), "()"))
+			if len(f) == 3 && f[0] == "meet" {
+				metIDs[f[2]] = true
+			}
+			if len(f) == 2 && f[0] == "qacc" {
+				accIDs = append(accIDs, f[1])
+			}
+		}
+		lg.mu.Unlock()
+		for _, id := range accIDs {
+			if !metIDs[id] {
+				lg.add(sx.L(sx.S("lost"), sx.S(id)))
+			}
+		}
 	}
 	close(stop)
 	lg.add(sx.L(sx.S("cb")))
